@@ -2,7 +2,7 @@ SPECIFICATION Spec
 CONSTANTS
   Accts = {"A1", "A2"}
   BankNames = {"B1", "B2"}
-  Amounts = {1, 99, 1000003}
+  Amounts = {1, 1000003}
   Ticks = {3600, 31536000}
   LiqTriples <- NoTuples
   Prices <- NoTuples
